@@ -936,6 +936,11 @@ func (c *compiler) compileIndexOptional(e *Term, x *Index) error {
 }
 
 func (c *compiler) compileFunc(e *Func) error {
+	if e.Name[0] == '@' {
+		// format function of a string interpolation (ref: compileString),
+		// which is not affected by the function definitions in the query
+		return c.compileCall(e.Name[1:], e.Args)
+	}
 	if len(e.Args) == 0 {
 		if f, v := c.lookupFuncOrVariable(e.Name); f != nil {
 			return c.compileCallPc(f, e.Args)
@@ -1520,7 +1525,7 @@ func (c *compiler) compileFormat(format string, str *String) error {
 		}
 	}
 	if str == nil {
-		return c.compileFunc(f)
+		return c.compileCall(f.Name, f.Args)
 	}
 	return c.compileString(str, f)
 }
@@ -1563,7 +1568,10 @@ func (c *compiler) compileString(s *String, f *Func) error {
 	var q *Query
 	for _, e := range s.Queries {
 		if e.Term.Str == nil {
-			e = &Query{Left: e, Op: OpPipe, Right: &Query{Term: &Term{Type: TermTypeFunc, Func: f}}}
+			// the name cannot be written in a query, see compileFunc
+			e = &Query{Left: e, Op: OpPipe, Right: &Query{Term: &Term{
+				Type: TermTypeFunc, Func: &Func{Name: "@" + f.Name, Args: f.Args},
+			}}}
 		}
 		if q == nil {
 			q = e
